@@ -19,4 +19,10 @@ CHECKS = {
         "assumptions": ["clocks.SystemClock.Drift is exercised without privileges (no adjtimex call is involved)", "CSPTP formula inputs bounded by 2^60 ns so that no admissible combination overflows int64"],
         "timeout_quick": 300, "timeout_thorough": 1500,
     },
+    "C14": {
+        "pkg": "c14",
+        "rule": "rapid-generated protocol values and byte strings per codec, exhaustive 8/16-bit NTP field enumeration, generated segmentations of NTS-KE streams.",
+        "assumptions": ["NTS packets are generated to fit nts.MaxPacketLen (oversize requests belong to C11)", "NTS-KE AEAD records carry exactly one algorithm id (ntske.Data has room for one)"],
+        "timeout_quick": 300, "timeout_thorough": 1500,
+    },
 }
